@@ -116,7 +116,7 @@ PROPS = {
                      "the session may access the key"],
     ),
     "C09": dict(
-        units=["security", "store", "dispatch", "permissions", "outbox", "sessions", "parser", "consensus"],
+        units=["security", "store", "dispatch", "permissions", "outbox", "sessions", "parser", "consensus", "ids"],
         kani=[K_AUTH, K_KIND],
         undecided=["the ReplicateRequest (rp) arm; the Auth, UseDb and Resolve arms ARE verified with their own bodies (unit dispatch; unit sessions: a refused use-db leaves the whole "
                    "selection - database and user - as it was, an accepted user login binds exactly that user); of the closure bodies handed to the guards those of get / "
@@ -181,7 +181,7 @@ PROPS = {
                      "sessions are modelled abstractly in the accounting lemmas: a map from session ids to the selected database"],
     ),
     "C04": dict(
-        units=["store", "consensus", "outbox", "parser", "pending", "traffic"],
+        units=["store", "consensus", "outbox", "parser", "pending", "traffic", "ids"],
         undecided=["the protocol level of the statement: every delivery order that keeps links FIFO, 2-3 processes, two concurrent clients on the primary - no contract on one call states it; what is "
                    "decided is (a) per step, on the real store operations, that a write / remove / increment is a FUNCTION of the key's cell (text, version, state) and of the line's own "
                    "fields, (b) the machine-checked lemma that two nodes that agree and apply the same sequence of lines in the same order agree after every prefix, for any number of lines, "
@@ -200,7 +200,7 @@ PROPS = {
                      "sequential semantics; op ids and disk addresses are node-local and excluded from the relation"],
     ),
     "C05": dict(
-        units=["sync", "outbox", "oplog", "parser", "traffic"],
+        units=["sync", "outbox", "oplog", "parser", "traffic", "ids"],
         undecided=["the protocol: join / replicate-since handshake, the supervisor loop, sockets, writes accepted during the synchronisation (async code, several processes)",
                    "the incremental path: that the operation-log query reports every pair changed since `since` is C12 (unit oplog); here ops_since(since) is any map of records whose "
                    "identifiers decode (precondition `decodes`: C16's subject); the comparison closure of its sort_by is replaced by a trusted shim (log order)",
